@@ -136,4 +136,11 @@ theorem cfgEx_hyp (tables : List (List (Cand Nat)))
   dirtySub := fun T c hc => List.mem_of_mem_take hc
   pickSub := fun _ _ h => h
 
+/-- Three Einsums; classes chain as `k → 1k' → k'' …`; rows that are dominated, incompatible, over
+capacity and tied all occur. -/
+def exTables : List (List (Cand Nat)) :=
+  [ [⟨1, [5, 2], [3]⟩, ⟨1, [6, 3], [4]⟩, ⟨1, [4, 9], [3]⟩, ⟨2, [1, 1], [9]⟩, ⟨1, [5, 2], [3]⟩],
+    [⟨13, [2, 2], [3]⟩, ⟨14, [1, 5], [6]⟩, ⟨23, [1, 1], [2]⟩, ⟨53, [0, 0], [0]⟩],
+    [⟨30, [1, 1], [1]⟩, ⟨30, [1, 1], [4]⟩, ⟨40, [7, 0], [0]⟩] ]
+
 end AFV.Search
